@@ -93,7 +93,7 @@ def _has_return(st) -> bool:
     return any(isinstance(n, ast.Return) for n in _walk_local(st)) or isinstance(st, ast.Return)
 
 
-def to_single_exit(body: List[ast.stmt], res: str) -> List[ast.stmt]:
+def to_single_exit(body: List[ast.stmt], res: str, fallthrough=None) -> List[ast.stmt]:
     """The statement list without `return`: every `return v` becomes `res = v`, and what followed an `if` that may
     return is moved into its branches (continuation passing), so that nothing runs after a taken return.  Only returns
     at block level or inside if/elif/else are supported (a return inside a loop / try / with raises _Unsupported)."""
@@ -117,6 +117,8 @@ def to_single_exit(body: List[ast.stmt], res: str) -> List[ast.stmt]:
             if _has_return(st):
                 raise _Unsupported("return inside a loop / try / with")
             out.append(st)
+        if fallthrough is not None:
+            out += fallthrough()  # a path that ends without `return`
         return out
 
     return tx(list(body))
@@ -182,7 +184,7 @@ def helper_in_class(helper) -> bool:
     return bool(getattr(helper, "_mdsa_in_class", False))
 
 
-def instantiate(helper: ast.FunctionDef, binds: Dict[str, ast.AST], tag: str) -> Tuple[List[ast.stmt], Optional[ast.AST]]:
+def instantiate(helper: ast.FunctionDef, binds: Dict[str, ast.AST], tag: str, raw: bool = False) -> Tuple[List[ast.stmt], Optional[ast.AST]]:
     """(statements, result expression) of the helper body with parameters bound"""
     body = copy.deepcopy(_body_wo_doc(helper))
     stored: Set[str] = set()
@@ -204,6 +206,8 @@ def instantiate(helper: ast.FunctionDef, binds: Dict[str, ast.AST], tag: str) ->
             rename[s] = f"{s}__{tag}"
     tr = _Rename(subst, rename)
     body = [tr.visit(st) for st in body]
+    if raw:
+        return pre + body, None
     result = None
     n_ret = sum(1 for st in body for n in _walk_local(st) if isinstance(n, ast.Return)) + sum(1 for st in body if isinstance(st, ast.Return))
     if body and isinstance(body[-1], ast.Return) and not any(_has_return(st) for st in body[:-1]):
@@ -361,6 +365,51 @@ class Inliner:
         if isinstance(st, ast.Try):
             for h in st.handlers:
                 h.body = self._block(fi, h.body)
+        # `if helper(..):` / `if not helper(..):` with a multi-exit helper: the helper's decision structure replaces
+        # the test (each `return v` selects the branch v selects), so that rules see the conditions themselves
+        if isinstance(st, ast.If):
+            t, negated = st.test, False
+            if isinstance(t, ast.UnaryOp) and isinstance(t.op, ast.Not):
+                t, negated = t.operand, True
+            if isinstance(t, ast.Call):
+                r = self.resolve(fi, t)
+                if r is not None and helper_shape(r[0].node) == "guards" and r[0].qual != fi.qual:
+                    helper, recv = r
+                    binds = _bind(helper.node, t, recv, _method_kind(helper.node))
+                    if binds is not None:
+                        self._count += 1
+                        tag = f"{helper.name.strip('_')}{self._count}"
+                        resn = f"ret__{tag}"
+                        stmts, _res = instantiate(helper.node, binds, tag, raw=True)
+                        body_t, body_f = (st.orelse, st.body) if negated else (st.body, st.orelse)
+
+                        def branch(v):
+                            if isinstance(v, ast.Constant):
+                                return copy.deepcopy(body_t if v.value else body_f) or [ast.Pass()]
+                            return [ast.If(test=v, body=copy.deepcopy(body_t) or [ast.Pass()], orelse=copy.deepcopy(body_f))]
+
+                        try:
+                            se = to_single_exit(stmts, resn, fallthrough=lambda: copy.deepcopy(body_f) or [ast.Pass()])
+                        except _Unsupported:
+                            se = None
+                        if se is not None:
+                            class R(ast.NodeTransformer):
+                                def visit_Assign(self, node):
+                                    if len(node.targets) == 1 and isinstance(node.targets[0], ast.Name) and node.targets[0].id == resn:
+                                        return [ast.copy_location(x, node) for x in branch(node.value)]
+                                    return node
+
+                                def visit_FunctionDef(self, node):
+                                    return node
+
+                            wrapper = ast.Module(body=se, type_ignores=[])
+                            R().visit(wrapper)
+                            self.inlined_count[helper.qual] = self.inlined_count.get(helper.qual, 0) + 1
+                            self.log.append(f"{fi.qual}: inlined the decision structure of {helper.qual} at L{getattr(st, 'lineno', '?')}")
+                            for x in wrapper.body:
+                                ast.copy_location(x, st)
+                                ast.fix_missing_locations(x)
+                            return wrapper.body
         # statement-level call forms
         call = None
         if isinstance(st, ast.Expr) and isinstance(st.value, ast.Call):
